@@ -20,3 +20,7 @@ func VerifNewErrorProducer(p MessageProducer, topic string) *ErrorProducer {
 func (k *KafkaProducer) VerifBuildConfigMap(config map[string]string) (*kafka.ConfigMap, error) {
 	return k.buildConfigMap(config)
 }
+
+// VerifStartEventsReceiver starts the producer's delivery-report loop (what newKafkaProducer does after creating the client),
+// so that a scripted client can hand it delivery reports.
+func (k *KafkaProducer) VerifStartEventsReceiver() { go k.startEventsReceiver() }
